@@ -20,6 +20,7 @@ import authcommon as ac
 import verif
 
 CONSTS = 'CONSTANTS\n  MaxStr = %d\n  Dev = %s\n'
+BCONSTS = 'CONSTANTS\n  MaxStr = %d\n  NSess = %d\n  Dev = %s\n'      # Bind.tla
 
 HEADER_A = "SPECIFICATION SpecA\nINVARIANT C12_EmitWellFormed\nINVARIANT C12_EmitRoundTrip\nCHECK_DEADLOCK FALSE\n"
 HEADER_B = ("SPECIFICATION SpecB\nINVARIANT C12_AcceptOnlyIf\nINVARIANT C12_StreamErrorReturned\n"
@@ -27,6 +28,8 @@ HEADER_B = ("SPECIFICATION SpecB\nINVARIANT C12_AcceptOnlyIf\nINVARIANT C12_Stre
 BIND = ("SPECIFICATION %s\nINVARIANT C12_BindRequestOwn\nINVARIANT C12_BindAdoptAssigned\n"
         "INVARIANT C12_BindNoReadyOnError\nINVARIANT C12_BindAnswerId\nINVARIANT C12_BindAnswerAddr\n"
         "INVARIANT C12_BindExpectation\nCHECK_DEADLOCK FALSE\n")
+BIND_SHARED = ("SPECIFICATION SpecShared\nINVARIANT C12_BindFresh\nINVARIANT C12_BindOwnAccount\n"
+               "INVARIANT C12_BindCallbackOwnArgs\nCHECK_DEADLOCK FALSE\n")
 
 # family -> (driver, sub-command, vector file)
 FAMILIES = {
@@ -34,6 +37,7 @@ FAMILIES = {
     "header-accept": ("header", "accept", "accept_vectors.ndjson"),
     "bind-init": ("bind", "init", "bind_init.ndjson"),
     "bind-recv": ("bind", "recv", "bind_recv.ndjson"),
+    "bind-shared": ("bind", "shared", "bind_shared.ndjson"),
 }
 
 
@@ -57,6 +61,10 @@ def classify(family, m):
     d = m["diffs"]
     if family == "bind-init" and all(x.startswith("requested resourcepart") for x in d):
         return "bind-request-drops-resource", "bind request does not ask for the session's own resourcepart: " + d[0]
+    if family == "bind-shared" and any("is not fresh" in x for x in d):
+        return "bind-resource-not-fresh", "sessions negotiated with one feature list value: " + [x for x in d if "is not fresh" in x][0]
+    if family == "bind-shared":
+        return "bind-shared-other", "sessions negotiated with one feature list value differ from the specification: " + "; ".join(d[:3])
     return family + "-other", "resource binding differs from the specification: " + "; ".join(d[:3])
 
 
@@ -89,6 +97,15 @@ def selftest(ctx, files):
     v = first(files["bind_recv.ndjson"], lambda v: v["in"]["cb"] == "requested")
     v["exp"]["id"] = [1, 1, 1]
     cases.append(("bind-recv", v, lambda m: any("has id" in x for x in m["diffs"])))
+    # shared feature value: (1) a corrupted per-session expectation, (2) the freshness comparison itself:
+    # two binds of one account that the "requested" callback answers with the same address, declared "fresh"
+    v = first(files["bind_shared.ndjson"], lambda v: v["in"]["feats"] == ["random"] and len(v["in"]["sess"]) == 3)
+    v["exp"]["per"][2]["id"] = [1, 1, 1]
+    cases.append(("bind-shared", v, lambda m: any("session 3" in x and "has id" in x for x in m["diffs"])))
+    v = first(files["bind_shared.ndjson"], lambda v: v["in"]["feats"] == ["requested"] and len(v["in"]["sess"]) == 2
+              and all(x["acct"] == 1 and x["res"] == [0] for x in v["in"]["sess"]) and v["in"]["sched"] == [1, 2, 1, 2])
+    v["exp"]["fresh"] = [True, True]
+    cases.append(("bind-shared", v, lambda m: any("is not fresh" in x for x in m["diffs"])))
     for k, (fam, vec, pred) in enumerate(cases):
         p = ctx.path("selftest-%d.ndjson" % k)
         open(p, "w").write(json.dumps(vec) + "\n")
@@ -100,12 +117,14 @@ def selftest(ctx, files):
 
 def nonvacuous(ctx, quick):
     runs = [("MCHeader", HEADER_A, "RawAttributes", "C12_EmitWellFormed"),
-            ("MCBind", BIND % "SpecInit", "DropResource", "C12_BindRequestOwn")]
+            ("MCBind", BIND % "SpecInit", "DropResource", "C12_BindRequestOwn"),
+            ("MCBind", BIND_SHARED, "ResourcePerFeature", "C12_BindFresh")]
     if not quick:
         runs += [("MCHeader", HEADER_B, "AcceptOldVersion", "C12_AcceptOnlyIf"),
                  ("MCBind", BIND % "SpecInit", "IgnoreId", "C12_BindAdoptAssigned")]
     for mod, cfg, dev, inv in runs:
-        r = ctx.tlc(mod, CONSTS % (1, ac.dev_set([dev])) + cfg, timeout=300, name=mod)
+        consts = BCONSTS % (1, 2, ac.dev_set([dev])) if mod == "MCBind" else CONSTS % (1, ac.dev_set([dev]))
+        r = ctx.tlc(mod, consts + cfg, timeout=300, name=mod)
         if inv not in r.violated:
             raise verif.Undecided("non-vacuity: deviation %s does not violate %s:\n%s" % (dev, inv, r.out[-1500:]))
     return len(runs)
@@ -115,16 +134,20 @@ def run(ctx):
     quick = ctx.tier == "quick"
     n = 2 if quick else 3
     strict = CONSTS % (n, "{}")
+    bstrict = BCONSTS % (n, 3, "{}")
+    bemit = BCONSTS % (n, 3 if quick else 4, "{}")    # NSess = 4: every interleaving of four sessions is emitted
     # ---------------------------------------------------------------- pipeline A
     mc = {}
     mc["emit"] = ctx.model_check("MCHeader", strict + HEADER_A, ["C12_EmitWellFormed", "C12_EmitRoundTrip"], name="MCHeader")
     mc["accept"] = ctx.model_check("MCHeader", strict + HEADER_B, ["C12_AcceptOnlyIf", "C12_StreamErrorReturned", "C12_VerdictMatchesExpectation"], name="MCHeader")
-    mc["bind_init"] = ctx.model_check("MCBind", strict + BIND % "SpecInit", ["C12_BindRequestOwn", "C12_BindAdoptAssigned", "C12_BindNoReadyOnError", "C12_BindExpectation"], name="MCBind")
-    mc["bind_recv"] = ctx.model_check("MCBind", strict + BIND % "SpecRecv", ["C12_BindAnswerId", "C12_BindAnswerAddr", "C12_BindExpectation"], name="MCBind")
+    mc["bind_init"] = ctx.model_check("MCBind", bstrict + BIND % "SpecInit", ["C12_BindRequestOwn", "C12_BindAdoptAssigned", "C12_BindNoReadyOnError", "C12_BindExpectation"], name="MCBind")
+    mc["bind_recv"] = ctx.model_check("MCBind", bstrict + BIND % "SpecRecv", ["C12_BindAnswerId", "C12_BindAnswerAddr", "C12_BindExpectation"], name="MCBind")
+    # feature values shared by several interleaved sessions: resourceparts of default binds are fresh
+    mc["bind_shared"] = ctx.model_check("MCBind", bstrict + BIND_SHARED, ["C12_BindFresh", "C12_BindOwnAccount", "C12_BindCallbackOwnArgs"], name="MCBind")
     nv = nonvacuous(ctx, quick)
     # ---------------------------------------------------------------- pipeline B
     files, _ = ac.emit(ctx, "EmitHeader", strict + "INIT EInit\nNEXT ENext\n", ["emit_vectors.ndjson", "accept_vectors.ndjson"])
-    f2, _ = ac.emit(ctx, "EmitBind", strict + "INIT EInit\nNEXT ENext\n", ["bind_init.ndjson", "bind_recv.ndjson"])
+    f2, _ = ac.emit(ctx, "EmitBind", bemit + "INIT EInit\nNEXT ENext\n", ["bind_init.ndjson", "bind_recv.ndjson", "bind_shared.ndjson"])
     files.update(f2)
     # ---------------------------------------------------------------- pipeline C
     todo = dict((fam, files[FAMILIES[fam][2]]) for fam in FAMILIES)
@@ -176,7 +199,7 @@ def run(ctx):
         "distinct_nontrivial": sum(t["distinct"] for t in totals.values()),
         "by_family": totals, "mismatches_by_class": {k: len(v) for k, v in per_class.items()},
         "nonvacuity_runs_violating": nv, "binding_selftest_corruptions_reported": nself,
-        "exhaustive": "emission: special characters (' & < > \") in every position of resourceparts / language strings up to length %d, one value at a time and all together, both roles, c2s/s2s, TCP and WebSocket framing; acceptance: full product of role x framing x element name x default namespace x version x id x to x from x prefix (declaration / whitespace) + stream errors; bind: every own resourcepart up to length %d x 12 reply kinds x 3 assigned addresses, 2 request ids x requested resources x 7 callback behaviours" % (n, n),
+        "exhaustive": "emission: special characters (' & < > \") in every position of resourceparts / language strings up to length %d, one value at a time and all together, both roles, c2s/s2s, TCP and WebSocket framing; acceptance: full product of role x framing x element name x default namespace x version x id x to x from x prefix (declaration / whitespace) + stream errors; bind: every own resourcepart up to length %d x 12 reply kinds x 3 assigned addresses, 2 request ids x requested resources x 7 callback behaviours; shared feature list values (one or two values: BindResource(), BindCustom(nil), callbacks): 2 sessions x every interleaving x accounts x requests, 3 sessions x every interleaving x accounts, 4 sessions (%s), sessions of one feature value sharing the Negotiator or only the feature list; assigned resourceparts of default binds compared pairwise across sessions, accounts and feature values" % (n, n, "successive / all open before the first bind / nested / mixed" if quick else "every interleaving"),
         "rule": "vector families: TLC writes input and expectation, the driver compares the real sessions' behaviour with it; every mismatch is re-run once",
         "samples": samples[:3],
         "part_c": "restart header address rule: covered by the negotiation family (Negotiation.tla C12_EstabStable), not run here",
